@@ -114,6 +114,9 @@ def members(spec: R.Spec):
     unb = R.Spec(spec.kind, p=spec.p, emin=spec.emin, nmin=spec.nmin)
     ms = [q for q in grid(spec, 1) if q.denominator & (q.denominator - 1) == 0 and R.is_member(unb, X.fin(q))]
     ms = sorted(set(ms))
+    # the C01 grid ends with one very distant point (2^(top+40)); the gap up to it is not a gap of the format
+    while len(ms) >= 2 and ms[-1] > 1024 * ms[-2]:
+        ms.pop()
     if spec.maxpos is not None:
         top = max(spec.maxpos, -spec.maxneg)
         keep = [q for q in ms if q <= top]
@@ -150,10 +153,10 @@ class Check(BaseCheck):
     def __init__(self, tier, seed):
         super().__init__(tier, seed)
         self.cfgs = configs(tier)
-        self.ks = (1, 2, 3) if tier == 'quick' else (1, 2, 3, 4, 5)
+        self.ks = (1, 2, 3, None) if tier == 'quick' else (1, 2, 3, 4, 5, None)
 
     def bounds(self):
-        return {'configurations': len(self.cfgs), 'k': list(self.ks), 'modes': 8,
+        return {'configurations': len(self.cfgs), 'k': [str(k) for k in self.ks], 'modes': 8,
                 'grid': 'gap/2^(k+2) inside selected gaps; all 2^k draws'}
 
     def shards(self):
@@ -163,6 +166,8 @@ class Check(BaseCheck):
         case = {'family': cfg.family, 'params': {a: str(b) for a, b in cfg.params.items()}, 'k': k, 'mode': mode,
                 'overflow': ovf, 'operand': optext, 'gen': gen}
         sig0 = {'family': cfg.family, 'gen': gen}
+        if k is None:
+            sig0['randbits'] = 'None'
 
         def bad(kind, detail, extra=None):
             s = dict(sig0)
@@ -172,6 +177,32 @@ class Check(BaseCheck):
             r.violate(s, case, f'{cfg.text()} k={k} rm={mode} ov={ovf} operand {optext} [{gen}]: {detail}')
 
         r.count('states')
+        kdecl = k
+        if k is None:
+            # num_randbits=None: every digit below the rounding position is a rounding bit, so the
+            # number of bits drawn depends on the operand (0 for a representable one)
+            if not (x.isfin and not x.iszero):
+                k = 0
+            else:
+                lo_, hi_, kept_, half_, sticky_ = R.neighbours(spec, x.q)
+                frac = (abs(x.q) - lo_) / (hi_ - lo_)
+                kmin = max(0, frac.denominator.bit_length() - 1)
+                # the number of bits drawn depends on the operand's encoding (c=6,exp=0 vs c=3,exp=1):
+                # learn it from the implementation's own request; it must cover the operand's digits
+                rng.value = 0
+                rng.calls = []
+                try:
+                    ctx.round(obj)
+                except (ValueError, OverflowError):
+                    pass
+                k = rng.calls[0] if len(rng.calls) == 1 else kmin
+                if k < kmin:
+                    bad('draws-consumed', f'generator asked for {rng.calls} bits; the operand has {kmin} digits '
+                        f'below the rounding position')
+                    return
+                if k > 8:
+                    r.count('inconclusive_many_bits')
+                    return
         lo_outs = R.round_model(spec, x, 'RTZ', ovf)
         hi_outs = R.round_model(spec, x, 'RAZ', ovf)
         finite_nonzero = x.isfin and not x.iszero
@@ -223,7 +254,7 @@ class Check(BaseCheck):
             if res[0] != res2[0] or (res[0] == 'val' and not res[1].same(res2[1])):
                 bad('nondeterministic', f'draw {draw}: {res} then {res2}')
                 return
-            if finite_nonzero and calls != [k]:
+            if finite_nonzero and calls != [k] and not (kdecl is None and k == 0 and calls == []):
                 bad('draws-consumed', f'draw {draw}: generator asked for {calls}, expected exactly one draw of {k} bits',
                     {'inside': inside})
                 return
@@ -258,7 +289,7 @@ class Check(BaseCheck):
         ms = members(spec)
         gaps = select_gaps(ms, self.tier)
         r.count('contexts')
-        step = 1 << (k + 2)
+        step = 1 << ((k if k is not None else 2) + 2)
         seen = set()
         for lo, hi in gaps:
             for j in range(0, step + 1):
@@ -275,7 +306,8 @@ class Check(BaseCheck):
                         obj = Float(x=rf(x.q)) if (j % 2 == 0) else rf(x.q)
                     self.check_operand(r, cfg, ctx, spec, rng, gen, k, mode, ovf, x, obj, str(x))
         # non-dyadic operand in the first and last selected gap, specials
-        for lo, hi in (gaps[0], gaps[-1]):
+        # (with num_randbits=None a non-dyadic operand has no finite number of rounding bits: not offered)
+        for lo, hi in ((gaps[0], gaps[-1]) if k is not None else ()):
             q = lo + (hi - lo) / 3
             self.check_operand(r, cfg, ctx, spec, rng, gen, k, mode, ovf, X.fin(q), q, str(q))
             self.check_operand(r, cfg, ctx, spec, rng, gen, k, mode, ovf, X.fin(-q), -q, str(-q))
@@ -290,10 +322,11 @@ class Check(BaseCheck):
         mode = MODES[m]
         for ovf in overflow_modes(cfg):
             for k in self.ks:
-                for gen in (('Random', 'Generator') if (k <= 2 or self.tier != 'quick') else ('Random',)):
+                for gen in (('Random', 'Generator') if (k is not None and (k <= 2 or self.tier != 'quick'))
+                            else ('Random',)):
                     self.run_ctx(r, cfg, mode, ovf, k, gen)
         if m == 0 and i % 8 == 0:
-            r.sample({'configuration': cfg.text(), 'mode': mode, 'k': list(self.ks), 'draws': 'all 2^k',
+            r.sample({'configuration': cfg.text(), 'mode': mode, 'k': [str(k) for k in self.ks], 'draws': 'all 2^k',
                       'overflow_modes': overflow_modes(cfg)})
         return r
 
